@@ -676,6 +676,18 @@ def explore(ctx, cases, monitors, chunk=400):
         chunks.append(cur); spans.append(curspan)
     outs = ctx.model.run_parallel('pm', chunks)
     divergences, failures = [], []
+    # the model with listeners (`pmodel pml`) given no plan must BE the model (`pmodel pm`): same lines, same output. (The twins
+    # `…L` of lean/PlumpyModel/PM/Listener.lean repeat the functions of PM/Model.lean that contain a notification point; this
+    # keeps them from drifting apart.)
+    outs_twin = ctx.model.run_parallel('pml', chunks)
+    if outs is not None and outs_twin is not None:
+        for chunk_i, (a_out, b_out) in enumerate(zip(outs, outs_twin)):
+            if a_out != b_out:
+                j = next((k for k, (x, y) in enumerate(zip(a_out, b_out)) if x != y), min(len(a_out), len(b_out)))
+                divergences.append(dict(case=dict(program='(model twins)', chunk=chunk_i, line=j, input=chunks[chunk_i][max(0, j - 12):j + 1]),
+                                        op_index=j, ops=chunks[chunk_i][max(0, j - 12):j + 1],
+                                        impl='pm : ' + (a_out[j] if j < len(a_out) else '(missing)'),
+                                        model='pml: ' + (b_out[j] if j < len(b_out) else '(missing)'), stream='twin'))
     distinct = set()
     phase_hist = {}
     validated = 0
